@@ -112,9 +112,9 @@ Proof. destruct ob; unfold obj_ok; cbn. intuition. Qed.
 Lemma ok_set_uv n ob u v : obj_ok n ob -> u_ok n u -> u_ok n v -> obj_ok n (set_uv P G C ob u v).
 Proof. destruct ob; unfold obj_ok; cbn. intuition. Qed.
 Lemma ok_u n ob : obj_ok n ob -> u_ok n (o_u P G C ob).
-Proof. unfold obj_ok; intuition. Qed.
+Proof. intros (_ & _ & _ & _ & H & _). exact H. Qed.
 Lemma ok_v n ob : obj_ok n ob -> u_ok n (o_v P G C ob).
-Proof. unfold obj_ok; intuition. Qed.
+Proof. intros (_ & _ & _ & _ & _ & H). exact H. Qed.
 Lemma ok_set_slots n ob a b m :
   obj_ok n ob -> (a = None \/ b = None) -> (forall r, a = Some (ATen r) -> r < n) -> (forall r, b = Some (Some r) -> r < n) ->
   obj_ok n (set_slots P G C ob a b m).
